@@ -149,7 +149,9 @@ fn get_global_info(root: &Node<'_>) -> GlobalInfo {
         let mut used_names = HashSet::new();
         for (infoset, name) in given.iter() {
             seen.remove(infoset);
-            used_names.insert(name);
+            if !used_names.insert(name) {
+                panic!("two infosets of the same player had the same name, so they can't be told apart : https://github.com/erikbrinkman/cfr#duplicate-infosets");
+            }
         }
 
         let mut number_names = Vec::new();
